@@ -427,7 +427,10 @@ func (s *sys) gen(r *rand.Rand, maxActs, maxJobs int) []uint64 {
 				o = 1 + uint64(r.IntN(3))
 			}
 			return []uint64{7, uint64(i), o}
-		case x < 93 && len(cancellable) > 0:
+		case x < 91 && len(cancellable) > 0:
+			if r.IntN(3) != 0 {
+				continue
+			}
 			return []uint64{8, uint64(cancellable[r.IntN(len(cancellable))])}
 		case x < 99 && len(errable) > 0:
 			i := errable[r.IntN(len(errable))]
